@@ -24,7 +24,7 @@ def run(c):
         trace = c.replay
     else:
         trace = c.scratch + "/segverify.ndjson"
-        args = ["-n", 800, "-flips", 48] if c.thorough else ["-n", 72, "-flips", 20]
+        args = ["-n", 800, "-flips", 48, "-exhaustive", 4] if c.thorough else ["-n", 72, "-flips", 20]
         c.run_driver(drv, args + ["-out", trace])
     r = c.validate("SegVerifyTrace", "SegVerifyTrace.cfg", trace, timeout=3000)
     drift = _tlcout.renorm(r)
